@@ -1,5 +1,4 @@
-import Ledger.Proofs.ChartRegex
-import Ledger.Chart.Posting
+import Ledger.Proofs.ChartPosting
 
 /-!
 C28 — Stored transactions only contain well-formed postings (chart / grammar part).
@@ -22,20 +21,6 @@ needed – before fix 6f26ac5 it was missing, `asset_literal_legacy_counterexamp
 -/
 namespace Ledger.C28
 open Ledger.Regex Ledger.Chart Ledger.Generated.Grammar
-
-/-- A posting as `Postings.Validate` wants it. -/
-def WellFormed (p : RawPosting) : Prop :=
-  (∃ a, p.amount = some a ∧ 0 ≤ a) ∧
-  (∃ body, accountPattern.unanchor = some body ∧ Lang body p.source ∧ Lang body p.destination) ∧
-  (∃ body, assetPattern.unanchor = some body ∧ Lang body p.asset)
-
-theorem matchAnchored_lang {pattern : Re} {s : List Char} (h : matchAnchored pattern s = true) :
-    ∃ body, pattern.unanchor = some body ∧ Lang body s := by
-  unfold matchAnchored at h
-  split at h
-  · rename_i body hb
-    exact ⟨body, hb, (accepts_iff body s).1 h⟩
-  · cases h
 
 /-- Whatever `Postings.Validate` lets through is well-formed: amount present and
     non-negative, source and destination in the language of the account pattern,
@@ -83,19 +68,6 @@ theorem account_literal_ok (lexBody patBody : Re)
   have e : lexAccount.dropFirstChr '@' = accountPattern.unanchor := by decide
   have : lexBody = patBody := Option.some.inj (hl.symm.trans (e.trans hp))
   rw [this]
-
-theorem dropFirstChr_spec {r b : Re} {c : Char} (h : r.dropFirstChr c = some b) :
-    r = .cat (Re.chr c) b := by
-  unfold Re.dropFirstChr at h
-  split at h
-  · rename_i lo hi rest
-    split at h
-    · rename_i hc
-      simp only [Bool.and_eq_true, decide_eq_true_eq] at hc
-      cases h
-      rw [hc.1, hc.2]; rfl
-    · cases h
-  · cases h
 
 /-- The same statement on the executable validator: the text of a token of the
     lexer rule `ACCOUNT`, stripped of its first character as the compiler does
